@@ -320,7 +320,31 @@ fn e2e(scn: &Value) -> Value {
     out
 }
 
+/// The in-flight counter under a storm of sessions: one thread plays the accept loop (`add` for every new session), another one lets the
+/// sessions end (drops the handles) at the same time -- `rounds` x `per` sessions.  The model takes `add` and the drop for atomic steps;
+/// this run checks that assumption on the real WaitGroup: when every session has ended the counter is back at zero, so that the wait after an
+/// interrupt ends (reported in the vocabulary of the e2e runs: signal, then `returned` iff the wait is over).
+fn storm(scn: &Value) -> Value {
+    let (rounds, per) = (scn["storm"]["rounds"].as_u64().unwrap_or(20), scn["storm"]["per"].as_u64().unwrap_or(100_000));
+    let mut wg = v::WaitGroup::new();
+    for _ in 0..rounds {
+        let (tx, rx) = std::sync::mpsc::sync_channel::<v::WaitGroup>(64);
+        let ender = std::thread::spawn(move || { for h in rx { drop(h) } });
+        for _ in 0..per { if tx.send(wg.add()).is_err() { break } }
+        drop(tx);
+        let _ = ender.join();
+    }
+    let waker = Waker::from(Arc::new(W(usize::MAX)));
+    let mut cx = Context::from_waker(&waker);
+    let over = matches!(Pin::new(&mut wg).poll(&mut cx), Poll::Ready(()));
+    std::mem::forget(wg);          // (the root handle is not a session: its drop is not part of the protocol)
+    let mut evs = vec![json!(["signal", 0])];
+    if over { evs.push(json!(["returned", 0])) }
+    json!({"kind": "e2e", "returned": over, "signalled": true, "unserved": 0, "events": evs, "sessions": (rounds * per) as i64})
+}
+
 pub fn run(scn: &Value) -> Value {
+    if scn.get("storm").is_some() { return storm(scn) }
     match crate::util::s(&scn["mode"]) { "proto" => proto(scn), "e2e" => e2e(scn), m => json!({"kind": "tool-error", "where": format!("mode {m}")}) }
 }
 
